@@ -7,6 +7,7 @@ import Driver.OpsCode
 import Driver.OpsDeform
 import Driver.OpsGui
 import Driver.OpsLatRotatedPlanar3DCode
+import Driver.OpsLatXCubeCode
 import Driver.OpsMask
 import Driver.OpsNoise
 open Panqec
@@ -16,7 +17,7 @@ open Panqec
     (`none` = not my op); the first that answers wins. -/
 
 def handlers : List (List String → Option String) :=
-  [Drv.handleBatch, Drv.handleBits, Drv.handleCli, Drv.handleCode, Drv.handleDeform, Drv.handleGui, Drv.handleLatRotatedPlanar3DCode, Drv.handleMask, Drv.handleNoise]
+  [Drv.handleBatch, Drv.handleBits, Drv.handleCli, Drv.handleCode, Drv.handleDeform, Drv.handleGui, Drv.handleLatRotatedPlanar3DCode, Drv.handleLatXCubeCode, Drv.handleMask, Drv.handleNoise]
 
 def handleToks (toks : List String) : String :=
   match handlers.findSome? (fun h => h toks) with
